@@ -14,6 +14,9 @@ Tie (b) correspondence, model evaluated by vm_compute inside Coq on the same inp
   lockname     TileLocker(lock_dir, _, id).lock_filename(tile)          vs  lock_filename
   multiapp     Request.pop_path + DirectoryConfLoader.filename_from_app_name vs app_filename (pop_path p)
   demostatic   the file name DemoServer.handle opens for /demo/static/  vs  demo_static_filename
+  ensuredir    os.mkdir / os.chmod calls of mapproxy.util.fs.ensure_directory (audit events, scratch directory with k existing
+               levels, with and without directory_permissions)          vs  ensure_dir_ops
+  tmpname      temporary file of mapproxy.util.fs.write_atomic (audit)  vs  name ++ tmp_suffix r
   wmsdims      directory below the cache root in which the real WSGI app stores the tiles of a WMS GetMap with
                attacker-chosen TIME/ELEVATION/DIM_* parameters          vs  dimensions_part py_lower
 Oracle (independent of the model; ctx.fail with the concrete input):
@@ -583,6 +586,107 @@ def demo_static_impl(p, tdir):
     return ('ok', str(seen[0]))
 
 
+# --------------------------------------------------------------------------- stream: util/fs.py under the audit hook
+
+def stream_fsops(ctx, corpus):
+    """ensure_directory / write_atomic of mapproxy.util.fs run for real in a scratch directory; the os.mkdir / os.chmod / open /
+    os.rename calls they make (audit events) are compared with ensure_dir_ops / tmp_suffix and judged directly: nothing that
+    existed before the call may be touched, the temporary file is a sibling of its target."""
+    from mapproxy.util import fs
+    from mapproxy.cache import path as mpath
+    rng = ctx.rng
+    audit = Audit.get()
+    base = os.path.realpath(ctx.tmpdir('c09fsops'))
+    names = ['a', 'cache_data', '02', '000', 'time-2020', 'x.y', '...', '-', ' ', 'caf\u00e9']
+    terms, descr, terms2, descr2 = [], [], [], []
+    ncase = ctx.n(160, 1200)
+    for i in range(ncase):
+        n = rng.choice([1, 1, 2, 3, 4, 6])
+        comps = []
+        for _ in range(n):
+            c = rng.choice(names) if rng.random() < 0.6 else mpath._path_component('time-' + gen_text(rng, 5))[:60]
+            if c in ('', '.', '..') or '/' in c or '\0' in c:
+                c = 'n'
+            comps.append(c)
+        k = rng.randrange(0, n + 1) if i >= 2 * 7 else (i % 7) % (n + 1)
+        perm = rng.choice([None, None, '755', '700', '777'])
+        case_dir = os.path.join(base, 'e%d' % i)
+        os.makedirs(os.path.join(case_dir, *comps[:k]))
+        before = {}
+        for j in range(k + 1):
+            dpath = os.path.join(case_dir, *comps[:j])
+            os.chmod(dpath, 0o750)
+            before[dpath] = os.stat(dpath).st_mode & 0o7777
+        target = os.path.join(case_dir, *(comps + ['tile.png']))
+        with audit.record() as rec:
+            o = call(fs.ensure_directory, target, perm)
+        ops = []
+        for kind, event, paths in rec.events:
+            if event in ('os.mkdir', 'os.chmod'):
+                ops.append((event == 'os.chmod', os.path.normpath(_fs_text(paths[0]))))
+        rep = {'function': 'mapproxy.util.fs.ensure_directory(file_name, directory_permissions)', 'file_name': '<scratch>/' + '/'.join(comps + ['tile.png']),
+               'existing_before_the_call': '<scratch>/' + '/'.join(comps[:k]), 'directory_permissions': perm,
+               'calls': [('chmod' if c else 'mkdir', os.path.relpath(p_, case_dir)) for c, p_ in ops], 'result': o[1] if o[0] != 'ok' else 'ok'}
+        ctx.case(('ensure_directory', tuple(comps), k, perm), True, dict(rep, stream='fsops'))
+        ctx.count('fsops ensure_directory perm=%s' % bool(perm))
+        if o[0] != 'ok':
+            ctx.fail('fsops,raised', 'ensure_directory raised %s: %r' % (o[1], rep), rep)
+        created = set(p_ for c, p_ in ops if not c)
+        for c, p_ in ops:
+            if p_ in before or not (p_ == case_dir or p_.startswith(case_dir + '/')):
+                ctx.fail('fsops,pre-existing-directory-touched', 'ensure_directory(%s, %r) with %s already existing calls %s on the pre-existing directory %s'
+                         % (rep['file_name'], perm, rep['existing_before_the_call'], 'chmod' if c else 'mkdir', os.path.relpath(p_, base)), rep)
+                break
+            if c and p_ not in created:
+                ctx.fail('fsops,chmod-of-a-directory-not-created', 'ensure_directory chmods %s which it did not create' % os.path.relpath(p_, base), rep)
+                break
+        else:
+            for dpath, mode in before.items():
+                if os.stat(dpath).st_mode & 0o7777 != mode:
+                    ctx.fail('fsops,pre-existing-directory-touched', 'ensure_directory(%s, %r) changed the mode of the pre-existing directory %s from %o to %o'
+                             % (rep['file_name'], perm, os.path.relpath(dpath, base), mode, os.stat(dpath).st_mode & 0o7777), rep)
+                    break
+
+        def dlit(p_):
+            rel = os.path.relpath(p_, case_dir)
+            parts = [] if rel == '.' else rel.split('/')
+            return '[' + '; '.join(strlit(x) for x in reversed(parts)) + ']'
+        obs = '[' + '; '.join('(%s, %s)' % (common.blit(c), dlit(p_)) for c, p_ in ops) + ']' if o[0] == 'ok' else '[(true, [[0]])]'
+        terms.append('(%d%%nat, %s, %s, %s)' % (k, common.blit(bool(perm)), '[' + '; '.join(strlit(x) for x in reversed(comps)) + ']', obs))
+        descr.append(rep)
+        # write_atomic into the directory just made
+        name = rng.choice(['tile.png', '000.png', 'a', '.png', 'x.tmp-1', '-'])
+        tfile = os.path.join(os.path.dirname(target), name)
+        with audit.record() as rec:
+            o = call(fs.write_atomic, tfile, b'data')
+        opened = [_fs_text(p_[0]) for kd, ev, p_ in rec.events if ev == 'open' and kd == 'write']
+        renamed = [[_fs_text(x) for x in p_] for kd, ev, p_ in rec.events if ev == 'os.rename']
+        others = [(ev, [_fs_text(x) for x in p_]) for kd, ev, p_ in rec.events if kd == 'write' and ev not in ('open', 'os.rename')]
+        rep2 = {'function': 'mapproxy.util.fs.write_atomic(filename, data)', 'filename': '<scratch>/' + os.path.relpath(tfile, base),
+                'opened_for_writing': opened, 'renamed': renamed, 'other_modifying_calls': others, 'result': o[1] if o[0] != 'ok' else 'ok'}
+        ctx.case(('write_atomic', i, name), True, dict(rep2, stream='fsops'))
+        ctx.count('fsops write_atomic')
+        tmpbase, r = None, None
+        if o[0] != 'ok' or len(opened) != 1 or len(renamed) != 1 or others:
+            ctx.fail('fsops,write-atomic-unexpected-calls', 'write_atomic(%s): %r' % (rep2['filename'], rep2), rep2)
+        else:
+            t = opened[0]
+            if os.path.dirname(os.path.normpath(t)) != os.path.dirname(tfile) or renamed[0] != [t, tfile]:
+                ctx.fail('fsops,temporary-file-not-next-to-target', 'write_atomic(%s) writes its temporary file %s (renamed %r)' % (rep2['filename'], t, renamed[0]), rep2)
+            m = re.match(r'^(.*)\.tmp-(\d+)$', os.path.basename(t))
+            if m and m.group(1) == name and str(int(m.group(2))) == m.group(2):
+                tmpbase, r = os.path.basename(t), int(m.group(2))
+        terms2.append('(%s, %s, %s)' % (strlit(name), zlit(r if r is not None else -1), strlit(tmpbase if tmpbase is not None else '?')))
+        descr2.append(rep2)
+    ctx.corr_check('ensuredir', MODEL, 'nat * bool * list str * list (bool * list str)', terms,
+                   "fun c => let '(k, perm, d, obs) := c in "
+                   "list_eqb (pair_eqb Bool.eqb (list_eqb str_eqb)) "
+                   "(map (fun o => match o with Mkdir x => (false, x) | Chmod x => (true, x) end) "
+                   "(ensure_dir_ops (fun x => Nat.leb (List.length x) k) perm d)) obs", lambda i: descr[i])
+    ctx.corr_check('tmpname', MODEL, 'str * Z * str', terms2,
+                   "fun c => let '(name, r, obs) := c in str_eqb (List.app name (tmp_suffix r)) obs", lambda i: descr2[i])
+
+
 # --------------------------------------------------------------------------- corpus
 
 def load_corpus():
@@ -604,7 +708,7 @@ def load_corpus():
 def run(ctx):
     corpus = load_corpus()
     only = os.environ.get('C09_STREAMS')   # development aid: e.g. C09_STREAMS=wsgi,dims ; default: all streams
-    for stream in (stream_sanitise, stream_dims, stream_paths, stream_names, stream_wsgi):
+    for stream in (stream_sanitise, stream_dims, stream_paths, stream_names, stream_fsops, stream_wsgi):
         if only and stream.__name__[len('stream_'):] not in only.split(','):
             ctx.notes.append('stream %s skipped (C09_STREAMS)' % stream.__name__)
             continue
@@ -660,19 +764,20 @@ class Audit(object):
             if isinstance(flags, int) and flags & (os.O_WRONLY | os.O_RDWR | os.O_CREAT | os.O_TRUNC | os.O_APPEND):
                 write = True
             with self.lock:
-                self.events.append(('write' if write else 'read', 'open', [path]))
+                self.events.append(('write' if write else 'read', 'open', [_abs_now(path)]))
         elif event == 'os.symlink':
             # the link text is interpreted relative to the directory of the link
             src, dst = _fs_text(args[0]), _fs_text(args[1])
             with self.lock:
+                dst = _fs_text(_abs_now(dst))
                 self.events.append(('write', event, [os.path.join(os.path.dirname(dst or ''), src or ''), dst]))
         elif event in WRITE_EVENTS:
             n = 2 if event in TWO_PATHS else 1
             with self.lock:
-                self.events.append(('write', event, list(args[:n])))
+                self.events.append(('write', event, [_abs_now(a) for a in args[:n]]))
         elif event in READ_EVENTS:
             with self.lock:
-                self.events.append(('read', event, list(args[:1])))
+                self.events.append(('read', event, [_abs_now(a) for a in args[:1]]))
         elif event in EXEC_EVENTS:
             with self.lock:
                 self.events.append(('exec', event, [repr(args)[:200]]))
@@ -696,6 +801,17 @@ class Audit(object):
                     self.events = list(audit.events)
                     audit.events = []
         return _R()
+
+
+def _abs_now(p):
+    """a relative name means what it means at the moment of the call: remember the working directory"""
+    t = _fs_text(p)
+    if t is None or t == '' or os.path.isabs(t) or '\0' in t or t == ':memory:' or t.startswith('file:'):
+        return p
+    try:
+        return os.path.join(os.getcwd(), t)
+    except OSError:
+        return p
 
 
 def _fs_text(p):
@@ -724,20 +840,28 @@ CACHES = [  # name, yaml of the cache backend, layout (None: not a file cache)
 TIMES = ['2020-01-01', '2020-01-02T00:00:00Z']
 
 
-def make_config(root):
-    cache_root = os.path.join(root, 'cache_data')
+def make_config(root, perms=False, relative=False, only_file=False):
+    """relative: every path of the configuration is relative (to the directory of the configuration file, <root>/conf);
+    perms: directory_permissions / file_permissions are configured"""
+    base = os.path.join(root, 'conf') if relative else root
+    cache_root = os.path.join(base, 'cache_data')
+
+    def cfg(p):   # the text written into the configuration
+        return os.path.relpath(p, base) if relative else p
     y = ['services:', '  demo:', '  tms:', '    use_grid_names: false', '  kml:', '  wmts:', '    restful: true', '    kvp: true',
          "    restful_template: '/{Layer}/{TileMatrixSet}/{Time}/{TileMatrix}/{TileCol}/{TileRow}.{Format}'",
          '    featureinfo_formats:', '      - mimetype: text/plain', '        suffix: txt',
          '  wms:', "    srs: ['EPSG:3857', 'EPSG:4326']", "    image_formats: ['image/png', 'image/jpeg']", '    md:', '      title: C09',
          'sources:', '  src:', '    type: wms', '    wms_opts:', '      featureinfo: true', '      legendgraphic: true', '    req:',
          '      url: http://upstream.invalid/service', '      layers: up', "    forward_req_params: ['time', 'elevation', 'dim_x']",
-         'globals:', '  cache:', '    base_dir: %s' % cache_root, '    lock_dir: %s' % os.path.join(root, 'locks'),
-         '    tile_lock_dir: %s' % os.path.join(root, 'tile_locks'), '    meta_size: [1, 1]', '    meta_buffer: 0',
-         '    link_single_color_images: false', '  http:', '    hide_error_details: false',
+         'globals:', '  cache:', '    base_dir: %s' % cfg(cache_root), '    lock_dir: %s' % cfg(os.path.join(base, 'locks')),
+         '    tile_lock_dir: %s' % cfg(os.path.join(base, 'tile_locks')), '    meta_size: [1, 1]', '    meta_buffer: 0',
+         '    link_single_color_images: false'] + (["    directory_permissions: '755'", "    file_permissions: '644'"] if perms else []) + [
+         '  http:', '    hide_error_details: false',
          'caches:']
     dirs = {}
-    for name, backend, layout in CACHES:
+    caches = [c for c in CACHES if c[2] is not None or not only_file]
+    for name, backend, layout in caches:
         y += ['  %s:' % name, '    grids: [GLOBAL_MERCATOR]', '    sources: [src]', '    format: image/png']
         if name == 'c_link':
             y += ['    link_single_color_images: true']
@@ -746,14 +870,14 @@ def make_config(root):
         y += ['    cache:', '      ' + backend]
         d = os.path.join(cache_root, name)
         if backend.startswith('type: mbtiles'):
-            y += ['      filename: %s' % os.path.join(d, 'tiles.mbtiles')]
+            y += ['      filename: %s' % cfg(os.path.join(d, 'tiles.mbtiles'))]
         elif backend.startswith('type: geopackage'):
-            y += ['      filename: %s' % os.path.join(d, 'tiles.gpkg')]
+            y += ['      filename: %s' % cfg(os.path.join(d, 'tiles.gpkg'))]
         else:
-            y += ['      directory: %s' % d]
+            y += ['      directory: %s' % cfg(d)]
         dirs[name] = (d, layout)
     y += ['layers:']
-    for name, backend, layout in CACHES:
+    for name, backend, layout in caches:
         y += ['  - name: l_%s' % name[2:], '    title: layer %s' % name, '    sources: [%s]' % name]
         if name in ('c_tc', 'c_tms', 'c_quad', 'c_arc'):
             y += ['    dimensions:', '      time:', '        values: [%s]' % ', '.join('"%s"' % t for t in TIMES), '        default: "%s"' % TIMES[0]]
@@ -1033,24 +1157,39 @@ def gen_multiapp_requests(ctx):
 
 
 def stream_wsgi(ctx, corpus):
-    from urllib.parse import urlencode
-    from mapproxy.wsgiapp import make_wsgi_app
-    from mapproxy import multiapp
+    """main: absolute configuration, every service / backend, hostile requests, sequences, multiapp;
+    perm: the same caches with directory_permissions / file_permissions configured and fresh (not yet existing) cache and lock
+          directories - a request may chmod what it creates, nothing that existed before;
+    relative: every configured path relative, configuration loaded through a relative file name, working directory changed
+          between loading and serving - the directories are those next to the configuration file, whatever the cwd is."""
+    terms, descr = [], []
+    for variant in ('main', 'perm', 'relative'):
+        _stream_wsgi_variant(ctx, corpus, variant, terms, descr)
+    if terms:
+        ctx.corr_check('wmsdims', MODEL, 'dims * str', terms, 'fun c => str_eqb (dimensions_part py_lower (fst c)) (snd c)', lambda i: descr[i])
+    else:
+        ctx.problem('harness', 'no WMS GetMap with dimensions reached a file cache: the dataflow tie did not run')
+
+
+def _stream_wsgi_variant(ctx, corpus, variant, terms, descr):
     import mapproxy
     audit = Audit.get()
-    root = os.path.realpath(ctx.tmpdir('c09root'))
+    root = os.path.realpath(ctx.tmpdir('c09root' + variant))
     conf_dir = os.path.join(root, 'conf')
     os.makedirs(conf_dir)
     os.makedirs(os.path.join(root, 'outside'))
+    os.makedirs(os.path.join(root, 'elsewhere'))
     with open(os.path.join(root, 'secret.txt'), 'w') as f:
         f.write('secret')
-    text, cache_dirs = make_config(root)
+    text, cache_dirs = make_config(root, perms=(variant == 'perm'), relative=(variant == 'relative'))
     conf = os.path.join(conf_dir, 'mapproxy.yaml')
     with open(conf, 'w') as f:
         f.write(text)
-    with open(os.path.join(root, 'outside', 'evil.yaml'), 'w') as f:
-        f.write(text.replace(os.path.join(root, 'cache_data'), os.path.join(root, 'outside', 'cache_data')))
-    write_roots = [os.path.join(root, 'cache_data'), os.path.join(root, 'locks'), os.path.join(root, 'tile_locks')]
+    if variant == 'main':
+        with open(os.path.join(root, 'outside', 'evil.yaml'), 'w') as f:
+            f.write(text.replace(os.path.join(root, 'cache_data'), os.path.join(root, 'outside', 'cache_data')))
+    base = conf_dir if variant == 'relative' else root
+    write_roots = [os.path.join(base, 'cache_data'), os.path.join(base, 'locks'), os.path.join(base, 'tile_locks')]
     pkg_dir = os.path.realpath(os.path.dirname(mapproxy.__file__))
     template_dir = os.path.join(pkg_dir, 'service', 'templates')
     py_roots = sorted(set(os.path.realpath(p) for p in [sys.prefix, sys.base_prefix, sys.exec_prefix, os.path.dirname(pkg_dir)] +
@@ -1109,30 +1248,80 @@ def stream_wsgi(ctx, corpus):
             return (sig, '%s of %r (%s, resolves to %r)' % (kind, _fs_text(p), event, rp))
         return None
 
-    terms, descr = [], []
     import logging
     logging.disable(logging.CRITICAL)
+    old_cwd = os.getcwd()
     try:
-        _wsgi_requests(ctx, corpus, audit, conf, conf_dir, cache_dirs, judge, under, terms, descr)
+        _wsgi_requests(ctx, corpus, audit, conf, conf_dir, cache_dirs, judge, under, terms, descr, variant)
     finally:
+        os.chdir(old_cwd)
         logging.disable(logging.NOTSET)
-    if terms:
-        ctx.corr_check('wmsdims', MODEL, 'dims * str', terms, 'fun c => str_eqb (dimensions_part py_lower (fst c)) (snd c)', lambda i: descr[i])
-    else:
-        ctx.problem('harness', 'no WMS GetMap with dimensions reached a file cache: the dataflow tie did not run')
 
 
-def _wsgi_requests(ctx, corpus, audit, conf, conf_dir, cache_dirs, judge, under, terms, descr):
+def gen_basic_requests(ctx):
+    """every backend written and read once through WMS, TMS and WMTS, plus two hostile dimension sets per backend"""
+    layers = ['l_' + c[0][2:] for c in CACHES if c[2] is not None] + ['l_' + c[0][2:] for c in CACHES if c[2] is None]
+    up = '../' * 8
+    reqs = []
+    for layer in layers:
+        reqs.append(wms_getmap(layer, [], 0, 0, 0))
+        reqs.append(('tms', '/tms/1.0.0/%s/EPSG3857/1/0/0.png' % layer, [], {}, layer))
+        reqs.append(('wmts', '/wmts/%s/GLOBAL_MERCATOR/%s/01/1/1.png' % (layer, TIMES[0]), [], {}, layer))
+        reqs.append(wms_getmap(layer, [('TIME', '2020')], 1, 1, 0))
+        reqs.append(wms_getmap(layer, [('DIM_/' + up + 'outside/n', up + 'outside/v')], 1, 0, 1))
+    return reqs
+
+
+def _wsgi_requests(ctx, corpus, audit, conf, conf_dir, cache_dirs, judge, under, terms, descr, variant='main'):
     from urllib.parse import urlencode
     from mapproxy.wsgiapp import make_wsgi_app
     from mapproxy import multiapp
     with FakeUpstream():
-        app = make_wsgi_app(conf, reloader=False)
-        mapp = multiapp.make_wsgi_app(conf_dir, allow_listing=True)
         root = os.path.dirname(conf_dir)
-        reqs = [(app, 'single') + r for r in gen_requests(ctx, corpus)]
-        reqs += [(app, 'single') + r for r in gen_sequences(ctx, cache_dirs, root, under)]
-        reqs += [(mapp, 'multiapp', 'multiapp', p, q, {}, None) for p, q in gen_multiapp_requests(ctx)]
+        history = {}
+        if variant == 'main':
+            app = make_wsgi_app(conf, reloader=False)
+            mapp = multiapp.make_wsgi_app(conf_dir, allow_listing=True)
+            reqs = [(app, 'single') + r for r in gen_requests(ctx, corpus)]
+            reqs += [(app, 'single') + r for r in gen_sequences(ctx, cache_dirs, root, under)]
+            reqs += [(mapp, 'multiapp', 'multiapp', p, q, {}, None) for p, q in gen_multiapp_requests(ctx)]
+        elif variant == 'perm':
+            app = make_wsgi_app(conf, reloader=False)
+            history = {'configuration': "globals.cache.directory_permissions: '755', file_permissions: '644'; cache and lock directories do not exist yet"}
+            reqs = [(app, 'perm') + r + (history,) for r in gen_basic_requests(ctx)]
+        else:
+            os.chdir(conf_dir)
+            try:
+                app = make_wsgi_app('mapproxy.yaml', reloader=False)
+            except Exception as e:  # noqa
+                # report it, and go on with the file caches only (their directories are created by the first request, not at start-up)
+                ctx.problem('harness', "make_wsgi_app('mapproxy.yaml') with relative cache paths failed: %r" % (e,))
+                with open('mapproxy.yaml', 'w') as f:
+                    f.write(make_config(root, relative=True, only_file=True)[0])
+                app = make_wsgi_app('mapproxy.yaml', reloader=False)
+            # the new working directory belongs to a foreign project that has directories of the same names and tiles of its own
+            elsewhere = os.path.join(root, 'elsewhere')
+            from io import BytesIO
+            from PIL import Image
+            from mapproxy.cache import path as mpath
+            from mapproxy.cache.tile import Tile
+            b = BytesIO()
+            Image.new('RGB', (256, 256), PLANT_RGB).save(b, 'PNG')
+            for d in ('cache_data', 'locks', 'tile_locks'):
+                os.makedirs(os.path.join(elsewhere, d), exist_ok=True)
+            for cname, (cdir, layout) in sorted(cache_dirs.items()):
+                if layout is None:
+                    continue
+                for coord in [(0, 0, 0), (0, 0, 1), (1, 0, 1), (0, 1, 1), (1, 1, 1)]:
+                    t = getattr(mpath, LAYOUT_FN[layout])(Tile(coord), os.path.join(elsewhere, 'cache_data', cname), 'png')
+                    os.makedirs(os.path.dirname(t), exist_ok=True)
+                    with open(t, 'wb') as f:
+                        f.write(b.getvalue())
+            os.chdir(elsewhere)
+            history = {'configuration': 'all configured paths relative (base_dir: cache_data, lock_dir: locks, tile_lock_dir: tile_locks, ...)',
+                       'history': ["os.chdir(<root>/conf)", "app = make_wsgi_app('mapproxy.yaml')",
+                                   "os.chdir(<root>/elsewhere)  # has cache_data/, locks/, tile_locks/ and tiles of its own", 'the request']}
+            reqs = [(app, 'relative') + r + (history,) for r in gen_basic_requests(ctx)]
         for r in reqs:
             the_app, which, svc, path, q, hdr, layer = r[:7]
             meta = r[7] if len(r) > 7 else {}
